@@ -13,6 +13,7 @@ import (
 	"verif/harness/addrfam"
 	"verif/harness/concfam"
 	"verif/harness/emlfam"
+	"verif/harness/lifefam"
 	"verif/harness/linefam"
 	"verif/harness/mimefam"
 	"verif/harness/pipeconn"
@@ -184,6 +185,17 @@ func runOne(family string, j job, seed int64) result {
 			s.ID = fmt.Sprintf("K%06d", j.idx)
 		}
 		rn := &concfam.Runner{Sc: s, Rec: rec.New(), T: j.idx, Seed: seed}
+		rn.Run()
+		return result{idx: j.idx, lines: rn.Rec.Lines(), infra: rn.Infra}
+	case "life":
+		var s lifefam.Scenario
+		if err := json.Unmarshal(j.line, &s); err != nil {
+			return result{idx: j.idx, infra: err}
+		}
+		if s.ID == "" {
+			s.ID = fmt.Sprintf("L%06d", j.idx)
+		}
+		rn := &lifefam.Runner{Sc: s, Rec: rec.New(), T: j.idx}
 		rn.Run()
 		return result{idx: j.idx, lines: rn.Rec.Lines(), infra: rn.Infra}
 	case "eml":
